@@ -139,6 +139,17 @@ func defaultInline(root *ssa.Function) func(site *ssa.Call, callee *ssa.Function
 		if callee.Pkg == nil || callee.Pkg != root.Pkg || len(chain) >= 4 {
 			return false
 		}
+		// a helper that is a critical section of its own (defer mu.Unlock()) is a unit the rules reason about as
+		// such (the nonce cache's check-and-record, a limiter's admit): it stays a call
+		for _, b := range callee.Blocks {
+			for _, ins := range b.Instrs {
+				if d, ok := ins.(*ssa.Defer); ok {
+					if g := d.Call.StaticCallee(); g != nil && g.Pkg != nil && g.Pkg.Pkg.Path() == "sync" && (g.Name() == "Unlock" || g.Name() == "RUnlock") {
+						return false
+					}
+				}
+			}
+		}
 		if callee.Parent() != nil {
 			return true // function literal
 		}
@@ -230,6 +241,18 @@ func (p *Program) InlinedFrom(ins ssa.Instruction) []*ssa.Function {
 		return vi.res.Origin[ins]
 	}
 	return nil
+}
+
+// FromDeferred: the instruction of a view runs as (part of) a deferred call of an expanded helper — clean-up code,
+// which rules that ignore defer statements ignore here too.
+func (p *Program) FromDeferred(ins ssa.Instruction) bool {
+	if ins == nil || ins.Parent() == nil {
+		return false
+	}
+	if vi, ok := p.views[ins.Parent()]; ok {
+		return vi.res.Deferred[ins]
+	}
+	return false
 }
 
 // SourceInstr maps an instruction of a view to the instruction it was cloned from (itself otherwise).
